@@ -8,6 +8,8 @@ HOOK_COMMITS = subprocess.run("git -C /repo log --format=%H --grep='^verif hooks
 NOTE_S = ("Trusted base: the vrewrite source rewriter and the vz shim packages (scheduler, channels, sync, time) preserve Go semantics for data-race-free code; "
           "the harness-side virtual transport vt / reference models are correct; results hold only within the stated bounds (deviation bound, history depth, alphabets, 2-3 peers/contexts).")
 
+NOTE_E = ("Engine E runs the unmodified mangos code under the real Go scheduler and real OS transports: inputs, configurations and operation lists are enumerated exhaustively over the stated finite sets, goroutine schedules and kernel segmentation are not controlled; hang verdicts use generous watchdogs; the harness codecs/reference decoders are trusted.")
+
 claimed = {
  # id: (technique, text, design_ref, engines)
  "C03": ("stateless model checking of the rewritten real code: exhaustive event-history enumeration (depth-bounded) against a reference REQ model + deviation-bounded schedule exploration",
@@ -27,6 +29,15 @@ claimed = {
          "DESIGN.md §6 C07"),
 }
 
+claimed.update({
+ "C01": ("bounded-exhaustive enumeration of message sizes, size sequences and byte values on the unmodified code over all six real transports x 16 socket pairings (engine E)",
+         "Every size in the boundary alphabet (0..3, k-6..k+2 around each pool class, the receive limit +-1 with MaxRecvSize 4096 and the 1 MiB default), every length 0..130 (quick) / 0..1100 and beyond (thorough), all ordered pairs/triples of a 12-16 element alphabet back to back on one connection and all 256 fill values are sent with position-dependent content through inproc, ipc, tcp, tls+tcp, ws and wss for 16 cooked/raw pairings in both directions; each receive must equal its send, one for one, followed by a sentinel.",
+         "DESIGN.md §6 C01"),
+ "C15": ("bounded-exhaustive enumeration against an independent SP/RFC 6455 codec on the unmodified code over real tcp, tls+tcp, ipc, ws, wss sockets (engine E)",
+         "For all 12 protocol numbers (24 socket types) and both roles the first 8 bytes mangos writes are compared with the SP header; every single-byte deviation of the peer header (8x255) and every wrong-but-well-formed protocol number must be refused while a following good peer is accepted; frames mangos writes are parsed by an independent codec (8-byte BE length, 0x01 on IPC, header||body) and codec-written frames, split at every prefix position, must be delivered intact; WebSocket subprotocol negotiation and one-binary-frame-per-message are checked with a hand-written RFC 6455 endpoint.",
+         "DESIGN.md §6 C15"),
+})
+ENGINE_OF = {"C01": "E", "C15": "E"}
 not_applicable = {}
 ALL = [f"C{i:02d}" for i in range(1, 21)]
 for pid in ALL:
@@ -41,9 +52,9 @@ for pid, (tech, text, ref) in sorted(claimed.items()):
         "thorough_cmd": f"./check {pid} thorough",
         "evidence_file": f"/verif/evidence/{pid}.json",
         "replay_cmd_template": f"./check {pid} quick --replay {{path}}",
-        "engine": "S",
+        "engine": ENGINE_OF.get(pid, "S"),
         "level_claimed": {"category": "model_checking", "text": text, "design_ref": ref},
-        "level_note": NOTE_S,
+        "level_note": NOTE_E if ENGINE_OF.get(pid) == "E" else NOTE_S,
         "technique": tech,
     })
 
@@ -58,7 +69,8 @@ m = {
    "add_only": True,
  },
  "engines": [
-   {"name": "S", "path": "/verif/s", "serves_properties": sorted(claimed), "kind_free_text": "stateless model checker: source-to-source rewrite of mangos (tools/vrewrite) onto a controlled scheduler with virtual time (s/vz/vsched), deviation-bounded DFS explorer sharded over processes (s/vz/vexplore), harnesses + virtual transport (s/vh)"},
+   {"name": "E", "path": "/verif/e", "serves_properties": sorted(p for p in claimed if ENGINE_OF.get(p) == "E"), "kind_free_text": "bounded-exhaustive enumeration driver on the unmodified code (real transports, built macat binary): e/ekit + one package per property"},
+   {"name": "S", "path": "/verif/s", "serves_properties": sorted(p for p in claimed if ENGINE_OF.get(p) != "E"), "kind_free_text": "stateless model checker: source-to-source rewrite of mangos (tools/vrewrite) onto a controlled scheduler with virtual time (s/vz/vsched), deviation-bounded DFS explorer sharded over processes (s/vz/vexplore), harnesses + virtual transport (s/vh)"},
  ],
  "checks": checks,
  "not_applicable": [{"property_id": k, "reason": v} for k, v in sorted(not_applicable.items())],
